@@ -126,6 +126,10 @@ func newTarget(kind string) (*target, string, error) {
 					hs = append(hs, strings.ToLower(strings.TrimPrefix(k, "X-V-"))+":"+c11lib.Enc(strings.Join(v, "&")))
 				}
 			}
+			if strings.Contains(r.URL.Path, "/p-") || strings.Contains(r.URL.Path, "/q-") {
+				// mode=pools: which pool's uri template the request was rendered from
+				hs = append(hs, "path:"+c11lib.Enc(r.URL.Path))
+			}
 			sort.Strings(hs)
 			b, _ := io.ReadAll(r.Body)
 			t.mu.Lock()
@@ -662,7 +666,9 @@ func poolYAML(kind, addr string, kv map[string]string, n int, rps map[string]any
 	case "httpscen":
 		gun["type"] = "http/scenario"
 		ammo["type"] = "http/scenario"
-		if kv["isolate"] != "" {
+		if kv["pools"] != "" {
+			ammo["file"] = poolsScenarioFile(kv["pools"], kv["nm"])
+		} else if kv["isolate"] != "" {
 			ammo["file"] = isolateScenarioFile(strings.Split(kv["isolate"], ";"))
 		} else if kv["steps"] != "" {
 			ammo["file"] = httpFaultScenarioFile(kv)
